@@ -15,6 +15,7 @@ PROPS = {
     "C04": dict(level="fault_enumeration", shards=(16, 16), timeout=(1200, 3400), assumptions=COMMON + ["crypto/tls and crypto/x509 of Go 1.23 verify chains and host names correctly; the peer tags received elements clear-text / inside-TLS by the connection object they were read from"]),
     "C05": dict(level="exploration", shards=(4, 16), timeout=(900, 3000), assumptions=COMMON + ["loopback TCP / WebSocket deliver bytes in order; quiescence is detected by waiting (up to 5 s, 20 s on the confirming re-run) until the expected number of stanzas was routed"]),
     "C06": dict(level="exploration", shards=(2, 16), timeout=(300, 1500), assumptions=COMMON),
+    "C07": dict(level="exploration", shards=(4, 16), timeout=(900, 3000), assumptions=COMMON + ["the two yield points (verif build tag) are the only places where the harness forces an interleaving; other interleavings are those of the Go scheduler"], race=dict(pattern="^TestC07_iqresult$", shards=(2, 8), timeout=(900, 3000), scale=0.2, quick=False)),
     "C08": dict(level="exploration", shards=(4, 16), timeout=(900, 3000), assumptions=COMMON + ["the scripted peer's byte-exact capture of each received element is the wire truth"], race=dict(pattern="^TestC08_send$", shards=(2, 8), timeout=(900, 3000), scale=0.25, quick=False)),
     "C09": dict(level="exploration", shards=(4, 16), timeout=(600, 3000), assumptions=COMMON + ["loopback TCP delivers bytes in order; the scripted peer's own count of stanzas it sent is the wire truth"]),
     "C10": dict(level="exploration", shards=(4, 16), timeout=(900, 3000), assumptions=COMMON + ["the order in which the scripted peer receives elements is the wire order; quiescence after each step is detected by waiting for the expected number of elements (4 s, 16 s on the confirming re-run) plus a short settle time"], race=dict(pattern="^TestC10_smqueue$", shards=(2, 8), timeout=(900, 3000), scale=0.25, quick=False)),
@@ -34,6 +35,11 @@ NOT_APPLICABLE = {}
 
 # Texts for MANIFEST.json
 TEXT = {
+    "C07": dict(
+        technique="stateful schedule-owning property test (rapid): generated histories of SendIQ / response / read / cancel operations with goroutines parked and released at two yield points compiled in under the verif build tag; -race pass in the thorough tier",
+        level_text="Exploration with harness-owned schedules: histories over 1-4 SendIQ requests on a Client or Component (stub Transport) are generated as values; the calling goroutine can be parked between the write of the request and the registration of the pending route, and a goroutine routing a response can be parked after it found the pending entry, so the three logical races of the code (response between write and registration; two responses both past the lookup; delivery racing with an abandoned or cancelled receiver) are produced deterministically and shrink like any other value. Oracle: no panic, no route call outlives the contexts, at most one response per channel and only its own id, no response in two places, the caller of a written, uncancelled, read request gets exactly the first response, the channel is closed and the entry removed, unknown ids go to the ordinary route once.",
+        level_note="Only interleavings that pass through the two yield points are forced; the rest is left to the Go scheduler (and to -race in the thorough tier). Requests with clashing ids only get the safety assertions (which of them receives the response is not specified). 2000 histories quick, 100k thorough.",
+    ),
     "C08": dict(
         technique="property-based concurrency stress (rapid) with a byte-exact wire oracle on the scripted peer, plus write-fault injection on a stub Transport; -race pass in the thorough tier",
         level_text="Exploration: G x K concurrent Send / SendRaw / SendIQ calls with unique ids and payloads up to 64 KB over client/TCP, client/TLS, client/WebSocket and component/TCP, with stream management and the traffic logger on or off; the peer captures the exact bytes of every element: each accepted send must arrive exactly once and byte-identical, nothing else and nothing unparsable may arrive, accepted stanzas must be held under SM, sends after Disconnect must fail without panic. A second check injects Write failures at generated indices on a stub Transport: an error is returned exactly when the write failed and each success is exactly one Write of the serialised bytes.",
